@@ -527,6 +527,8 @@ func c01SelfRef(w *run.Worker) {
 		{rt.Assign("=", Id("x"), rt.List(Id("l"))), rt.Assign("=", rt.Index("l", I(0)), Id("x"))},
 		{rt.Assign("=", rt.Index("m", S("k")), rt.List(rt.Map(S("j"), Id("m"))))},
 		{rt.Assign("+=", rt.Index("l", I(2)), Id("l"))},
+		{rt.Assign("=", Id("x"), rt.Index("l", I(2))), rt.Assign("=", rt.Index("l", I(2), I(0)), Id("x"))},          // an inner list stored into itself through the outer name
+		{rt.Assign("=", Id("x"), rt.Map(S("in"), Id("m"))), rt.Assign("=", Id("y"), Id("x")), rt.Assign("=", rt.Index("m", S("k")), Id("y"))}, // through two aliases
 		{rt.AssignN([]*rt.Node{rt.Index("l", I(0)), Id("y")}, []*rt.Node{Id("l"), I(1)})},
 	}
 	consumers := func(k string) []*rt.Node {
@@ -606,7 +608,7 @@ func init() {
 		ID:    "C01",
 		Level: "model_checking",
 		Rule: "prelude binding a variable of every dynamic type, then S in 25 syntactic roles, for S over: 38 atoms (literals incl. extreme ints, variables incl. strings that are not valid UTF-8, point keys of each stored type incl. an invalid-UTF-8 string and fields holding typed/untyped Go slices, maps, arrays and small numeric types, a tag, an absent name), " +
-			"3 unary x atoms, 14 binary x atoms^2 (thorough: all depth-2 trees over 10 type representatives), list/map literals, index chains of depth <=3 over 16 objects x 14 keys, 8 ways of storing a list or map into itself (directly, at depth, through another container) x 17 consumers of the value, object-less .[i], " +
+			"3 unary x atoms, 14 binary x atoms^2 (thorough: all depth-2 trees over 10 type representatives), list/map literals, index chains of depth <=3 over 16 objects x 14 keys, 10 ways of storing a list or map into itself (directly, at depth, through another container) x 17 consumers of the value, object-less .[i], " +
 			"17 slice objects x 14^3 bounds, attribute expressions; plus every builtin x every argument list of length 0..3 over a 55-candidate alphabet (length 4 over 10) that the real checker accepts; plus every pair (point-mutating builtin call; reader) over 11 keys: 11x10 renames, casts, set_tag, add_key with scalar/list/nil/void values, drop, delete-on-set-measurement, default_time, grok x 15 readers (len, slice, arithmetic, comparison, for-in, index, condition, string builtins, load_json, strfmt, cast, datetime, set_tag, rename, compound assignment); each on 4 input points; " +
 			"oracle: Run returns, no panic, error (if any) carries a position chain whose first entry names the script; distinct = (program, point, outcome class)",
 		Assumptions: []string{"panics are recovered in the worker goroutine; fatal errors kill the worker and are reported through the progress slot", "position validity is decided by C17"},
